@@ -455,10 +455,10 @@ impl BtpInner {
             .session
             .is_ack_due(Instant::now(), self.ack_timeout_secs as _)
         {
-            let len = self.session.prep_tx_data(&[], &mut 0, buf)?;
-            assert!(len > 0);
-
-            return Ok(len);
+            // Nothing can be sent - not even a stand-alone ACK - while the send window is
+            // exhausted (the peer has yet to acknowledge what we have in flight); the ACK
+            // stays due and goes out once the peer opens the window again
+            return self.session.prep_tx_data(&[], &mut 0, buf);
         }
 
         Ok(0)
